@@ -42,7 +42,10 @@ def gen(rng):
     calls = []
     for _ in range(rng.randint(1, 3)):
         first = rng.choice(["w(a)", "w(b)", "v(a)", "w(c)"]) if compound else rng.choice(CONSTS + ["_", "_"])
-        calls.append((first, rng.choice(CONSTS + ["_", "_"]), rng.random() < 0.4))
+        mode = rng.random() < 0.4
+        if mode and rng.random() < 0.3:
+            mode = rng.choice([i for i, _, _ in rules] + [rng.randint(1, 15)]) + 100     # cut/2 with the index given
+        calls.append((first, rng.choice(CONSTS + ["_", "_"]), mode))
     return facts, rules, calls
 
 
@@ -56,7 +59,11 @@ def render(facts, rules, calls):
     for k, (x, y, with_index) in enumerate(calls):
         cx = "X" if x == "_" else x
         cy = "Y" if y == "_" else y
-        if with_index:
+        if with_index is not True and with_index is not False:
+            out.append("q%d(%s, %s, I) :- I = %d, cut(r(%s, %s), I)." % (k, cx, cy, with_index - 100, cx, cy))
+            out.append("query(q%d(_, _, _))." % k if (x == "_" and y == "_") else
+                       "query(q%d(%s, %s, _))." % (k, "_" if x == "_" else x, "_" if y == "_" else y))
+        elif with_index:
             out.append("q%d(X, Y, I) :- X = %s, Y = %s, cut(r(X, Y), I)." % (k, cx, cy) if False else
                        "q%d(%s, %s, I) :- cut(r(%s, %s), I)." % (k, cx, cy, cx, cy))
             out.append("query(q%d(_, _, _))." % k if (x == "_" and y == "_") else
@@ -84,6 +91,8 @@ def reference(facts, rules, calls):
             if not match:
                 continue
             lo = min(i for i, _ in match)
+            if with_index is not True and with_index is not False and with_index - 100 != lo:
+                continue        # the given index is not the first applicable rule: no answer
             for a in sorted(set(a for i, a in match if i == lo)):
                 key = "q%d(%s,%s%s)" % (k, a[0], a[1], ",%d" % lo if with_index else "")
                 exp[key] = exp.get(key, Fraction(0)) + w
